@@ -59,6 +59,7 @@ def variants(topo, rng, n_perm):
     # on the graph and the network is stepped once; then the real elements replace them through the same API calls
     V.append(("decoy-links-stepped-then-replaced", {"decoy": "links"}))
     V.append(("decoy-attachments-stepped-then-replaced", {"decoy": "attach"}))
+    V.append(("reads-then-bulk-links", {"reads_then_bulk": True}))
     V.append(("turnrates-rescaled-after-a-step", {"rescale_after_step": 2.5}))
     V.append(("turnrates-as-one-element-arrays", {"beta_arrays": True}))
     V.append(("renamed", {"rename": lambda s: "zz_" + s[::-1] + "_" + str(len(s))}))
@@ -142,7 +143,28 @@ def build_rescaled_after_step(topo, P, factor, first_engine=None):
     return built
 
 
+def build_reads_then_bulk(topo, P, first_engine=None):
+    """nodes and the first link are added one by one, every lookup is read, then ALL remaining links arrive in one
+    add_links call (then origins and destinations): lookups cached before the bulk call must not survive it."""
+    built = T_.build(topo, P, order=[])
+    net = built.net
+    for n in topo.nodes:
+        net.add_node(built.nodes[n])
+    first = topo.links[0]
+    net.add_link(built.nodes[first.u], built.links[first.name], built.nodes[first.v])
+    touch_all(net)
+    if topo.links[1:]:
+        net.add_links([(built.nodes[l.u], built.links[l.name], built.nodes[l.v]) for l in topo.links[1:]])
+    for n, (o, k) in topo.origins.items():
+        net.add_origin(built.origins[o], built.nodes[n])
+    for n, (d, k) in topo.dests.items():
+        net.add_destination(built.dests[d], built.nodes[n])
+    return built
+
+
 def build_variant(topo, P, var, first_engine=None):
+    if var.get("reads_then_bulk"):
+        return build_reads_then_bulk(topo, P, first_engine)
     if var.get("rescale_after_step"):
         return build_rescaled_after_step(topo, P, var["rescale_after_step"], first_engine)
     if var.get("decoy"):
@@ -366,7 +388,7 @@ def main():
     viol, inc, tot, levels, samples, st, extra = netcheck.summarize(results)
     cov = netcheck.base_coverage(
         tot, levels, samples, st, len(items),
-        "program = topology; per program: (n_perm seeded permutations + reversed + bulk + path-wise + renamed + same-names + symbolic turn-rate scaling) variants x "
+        "program = topology; per program: (n_perm seeded permutations + reversed + bulk + path-wise + reads-then-bulk-links + renamed + same-names + symbolic turn-rate scaling) variants x "
         "(NumPy joint exploration, SX, MX); one query per variant, engine and next-state component: variant term == base term",
         {"bounds": {"family": "K (20 curated)" + (" + every 2nd of E(3,4) + R(seed,20)" if args.thorough else ""), "permutations_per_topology": n_perm,
                     "scale_factors": "one symbolic c_n > 0 per node", "values": "all reals (L1) / admissible domain (fallback)"},
